@@ -34,12 +34,13 @@ let lock_desc s r =
     Printf.sprintf "%s:%s:%s:%s:%d:%d:%s:%s:%d:%s:%s:%s:%s" (sn l.l_cmd.c_lockid) (sn l.l_locked) (sn l.l_ack) (sn l.l_refc)
       (b2i l.l_timeouted) (b2i l.l_expried) (sz l.l_eT) (sz l.l_tT) (b2i l.l_isaof) (sn l.l_cmd.c_count) (sn l.l_cmd.c_rcount) (sn l.l_cmd.c_tflag) (sn l.l_cmd.c_req)
 
+let nthreads = ref 0
 let snapshot s =
   let c = s.cnt in
   let freed_in w = List.fold_left (fun acc (_, l) -> acc + List.length (List.filter (fun r -> aget s.store r = None) l)) 0 w in
   let uafw = freed_in s.twheel + freed_in s.tlong + freed_in s.ewheel + freed_in s.elong in
-  Printf.printf "snap now=%s ct=%s ce=%s L=%s U=%s LD=%s W=%s K=%s T=%s E=%s UE=%s uafw=%d\n" (sz s.now) (sz s.checkT) (sz s.checkE)
-    (sz c.n_lock) (sz c.n_unlock) (sz c.n_locked) (sz c.n_wait) (sz c.n_key) (sz c.n_timeouted) (sz c.n_expried) (sz c.n_unlockerr) uafw;
+  Printf.printf "snap now=%s ct=%s ce=%s L=%s U=%s LD=%s W=%s K=%s T=%s E=%s UE=%s uafw=%d thr=%d\n" (sz s.now) (sz s.checkT) (sz s.checkE)
+    (sz c.n_lock) (sz c.n_unlock) (sz c.n_locked) (sz c.n_wait) (sz c.n_key) (sz c.n_timeouted) (sz c.n_expried) (sz c.n_unlockerr) uafw !nthreads;
   let ms = List.sort (fun (a, _) (b, _) -> Int64.unsigned_compare (i64_of_n a) (i64_of_n b)) s.mgrs in
   List.iter (fun (k, m) ->
     let b = Buffer.create 256 in
@@ -71,6 +72,8 @@ let () =
   let ic = if Array.length Sys.argv > 1 then open_in Sys.argv.(1) else stdin in
   let st = ref (init_astate Z0 N0 (n_of_i64 1L)) in
   let nacks = ref 0 in
+  let sched = ref false in
+  let sst = ref (init_sstate Z0 N0) in
   let stopped = ref false in
   (try while true do
     let line = String.trim (input_line ic) in
@@ -78,11 +81,42 @@ let () =
       let f = Array.of_list (List.filter (fun x -> x <> "") (String.split_on_char ' ' line)) in
       match f.(0) with
       | "case" ->
-        Printf.printf "case %s\n" f.(1);
-        st := init_astate (z_of_i64 (Int64.of_string f.(2))) (nof f.(3)) (n_of_i64 1L); nacks := 0; stopped := false
+        Printf.printf "case %s\n" f.(1); nthreads := 0;
+        st := init_astate (z_of_i64 (Int64.of_string f.(2))) (nof f.(3)) (n_of_i64 1L); nacks := 0; stopped := false;
+        sched := false;
+        sst := init_sstate (z_of_i64 (Int64.of_string f.(2))) (nof f.(3))
       | "end" -> print_endline "end"
       | a when !stopped -> ()
+      | ("start" | "resume" | "drain") as a ->
+        Printf.printf "act %s\n" a;
+        if not !sched then begin sched := true; sst := { s_db = (!st).a_db; s_threads = []; s_epochs = [] } end;
+        let print_evs evs =
+          List.iter (function
+            | _ when !stopped -> ()
+            | EReply (conn, req, res, lc, lrc, lockid, cnt, rc, data) ->
+              Printf.printf "ev reply %s %s %s %s %s %s %s %s %s\n" (sn conn) (sn req) (sn res) (sn lc) (sn lrc) (sn lockid) (sn cnt) (sn rc) (shex data)
+            | EPanic site -> Printf.printf "ev panic %s\n" (string_of_chars site); stopped := true
+            | _ -> ()) evs;
+          if not !stopped then
+            List.iter (function
+              | EAof a ->
+                Printf.printf "ev aof %d %s %s %s %s %s %s %s %s %s %s %s %d\n" (b2i a.a_lock) (sn a.a_flag) (sn a.a_lockid) (sn a.a_key) (sn a.a_aofflag)
+                  (sz a.a_ctime) (sn a.a_start) (sn a.a_eflag) (sn a.a_etime) (sn a.a_count) (sn a.a_rcount) (shex a.a_data) (-1)
+              | _ -> ()) evs in
+        let one act = let (s', evs) = sstep !sst act in sst := s'; print_evs evs in
+        (match a with
+         | "start" ->
+           let c = make_cmd (f.(2) = "L") (nof f.(3)) (nof f.(4)) (nof f.(5)) (nof f.(6)) (nof f.(7)) (nof f.(8)) (nof f.(9)) (nof f.(10)) (nof f.(11)) (nof f.(12)) (bytes_of_hex f.(13)) in
+           one (SStart (nof f.(1), c))
+         | "resume" -> one (SResume (nof f.(1)))
+         | _ ->
+           let n = ref 0 in
+           while (!sst).s_threads <> [] && !n < 100000 && not !stopped do one (SResume N0); incr n done);
+        st := { !st with a_db = (!sst).s_db };
+        nthreads := List.length (!sst).s_threads;
+        if not !stopped then snapshot (!st).a_db
       | a ->
+        if !sched then sst := { !sst with s_db = (!st).a_db };
         Printf.printf "act %s\n" a;
         let act = match a with
           | "req" ->
@@ -100,8 +134,15 @@ let () =
         (match act with
          | None -> snapshot (!st).a_db
          | Some act ->
-           let (s', evs) = astep !st act in
+           let (s', evs) =
+             match act with
+             | AAct ea when !sched ->
+               (* scheduled mode: same engine step, but through the scheduler state (manager epochs) *)
+               let (ss, evs) = sstep { !sst with s_db = (!st).a_db } (SAtomic ea) in
+               sst := ss; ({ !st with a_db = ss.s_db }, evs)
+             | _ -> astep !st act in
            st := s';
+           if !sched then sst := { !sst with s_db = s'.a_db };
            let replies = List.filter (function EReply _ | EPanic _ -> true | _ -> false) evs in
            let aofs = List.filter (function EAof _ -> true | _ -> false) evs in
            List.iter (function
